@@ -280,6 +280,9 @@ def check_pipeline(ctx, res, clauses=("calls", "wire", "logs", "threads")):
         for t in sim.final_threads:
             if t[3] is not None:
                 res.v("thread_died", t[0], "thread %s died with %s" % (t[0], t[3]))
+            elif t[2] and str(t[4] or "").startswith("sock."):
+                # the server's sockets are non-blocking: nobody may ever sleep inside send()/recv()
+                res.v("thread_stuck", "blocked_in_" + str(t[4]), "thread %s is asleep inside a socket call (%s) at the end of the run" % (t[0], t[4]))
 
 
 def exc_disc(lp):
